@@ -8,4 +8,4 @@ P = {"s": 1, "d": 2, "c": 3, "z": 4}[prec]
 if kind == "pipe":
     print(build.harness("drv_pipe_" + prec, ["drv_pipe.c", "verif_rt.c"], variant=variant, defines=["PREC=%d" % P], wrap=["pthread_mutex_unlock"]))
 else:
-    print(build.harness("drv_api_" + prec, ["drv_api.c", "verif_rt.c"], variant=variant, defines=["PREC=%d" % P], wrap=["xerbla_", "malloc", "free", "calloc", "pthread_mutex_unlock"]))
+    print(build.harness("drv_api_" + prec, ["drv_api.c", "verif_rt.c", "verif_wrap_lacon.c"], variant=variant, defines=["PREC=%d" % P], wrap=["xerbla_", "malloc", "free", "calloc", "pthread_mutex_unlock", "slacon_", "dlacon_", "clacon_", "zlacon_", "sp_strsv", "sp_dtrsv", "sp_ctrsv", "sp_ztrsv", "sgscon", "dgscon", "cgscon", "zgscon"]))
